@@ -100,3 +100,11 @@ CHECKS["C09"] = {
     "text": "Generated owner classes with tunables of every supported type (bool, int, float, str, bytes, struct, arrays, type-hinted empty sequences in three spellings), subtables, writeDefault on/off, pre-existing topic values, bound directly (components / autonomous / no prefix) or through a real MagicRobot (component, autonomous mode, the robot itself), 1-3 instances per class; the monitor checks the topic path and type string, the initial value, and that every read on either side returns the latest write from either side; instances never alias.",
     "note": "values written are always of the topic's own type; local NetworkTables with the clock paused",
 }
+
+CHECKS["C16"] = {
+    "engine": "p_delay",
+    "technique": "runtime monitor: worker thread in the real NotifierDelay.wait() while the harness moves the paused FPGA clock exactly to the programmed alarm (recording hal proxy); grid arithmetic in integer microseconds",
+    "ref": "DESIGN.md section 6 (C16)",
+    "text": "Threaded runs with scripted loop-body durations (0, <<P, P-1, P, P+1, several P) check that the k-th wait() returns at max(t0+k*P, body end) - never before the grid point -, that every programmed alarm is t0+k*P however long bodies took, that free()/with-exit stops and cleans the notifier once and a later wait() returns without touching the HAL; a sweep over whole-microsecond periods in [1 ms, 100 ms] (all 99 001 in the thorough tier) checks the period conversion through the first programmed alarm.",
+    "note": "trusts the HAL simulator's notifier (level-triggered wait); a lost wake-up in the simulator shows up as an inconclusive case, never as a verdict",
+}
